@@ -613,6 +613,8 @@ pub fn compare(exp: &Scene, got: &Scene) -> Vec<Diff> {
                 None => "prototype/length",
             };
             d.push(("C01", class.into(), format!("cloud {i}: prototype {:?} read back as {:?}", which.map(|x| x.0.tok()), which.map(|x| x.1.tok()))));
+            // names and data types with their minimum/maximum/scale/offset are metadata as well (C04)
+            d.push(("C04", class.into(), format!("cloud {i}: prototype {:?} read back as {:?}", which.map(|x| x.0.tok()), which.map(|x| x.1.tok()))));
         }
         if let Some(err) = &g.raw_error {
             d.push(("C01", "points/read-error".into(), format!("cloud {i}: {err}")));
